@@ -7,6 +7,7 @@ ALGS = "MPL"
 
 # axioms each property's theorems may depend on (exact names, checked every run)
 AXIOMS = {
+    "C04": ["FunctionalExtensionality.functional_extensionality_dep"],
     "C14": ["FunctionalExtensionality.functional_extensionality_dep"],
     "C20": ["FunctionalExtensionality.functional_extensionality_dep"],
 }
@@ -16,6 +17,7 @@ PINNED = {
             "c01_patience_valid", "c01_patience_no_panic", "c01_strong_implies_spec", "c01_raw_replay", "c01_checker_reflects"],
     "C02": ["c02_capture_valid", "c02_capture_no_panic", "c02_capture_apply", "c02_identical_only_equal", "c02_ratio"],
     "C03": ["c03_myers_minimal", "c03_lcs_minimal", "c03_cost_lower_bound", "c03_lcs_len_correct"],
+    "C04": ["c04_text_reconstruct", "c04_change_index_shape", "c04_textdiff_reconstruct", "c04_capture_valid_all"],
     "C05": ["c05_udiff_applies", "c05_udiff_render_eq_print"],
     "C06": ["c06_tok_bytes_ok", "c06_tok_str_ok", "c06_tok_str_bytes_agree", "c06_decode_partition"],
     "C07": ["c07_myers_valid_any_clock", "c07_lcs_valid_any_clock"],
@@ -27,6 +29,8 @@ PINNED = {
     "C13": ["c13_iter_changes_spec", "c13_all_changes_concat"],
     "C14": ["c14_identify_iff_eq", "c14_textdiff_eq_tokens_diff"],
     "C15": ["c15_patience_anchors", "c15_unique_spec"],
+    "C18": ["c18_filters_sound", "c18_exhaustive_ranking", "c18_textdiff_ratio"],
+    "C19": ["c19_myers_work_bound", "c19_snake_round_cost", "c19_snake_halves"],
     "C20": ["c20_relabel_capture_diff"],
 }
 SPECS = {}
@@ -279,10 +283,20 @@ def run_C07(ctx):
             for alg in ALGS:
                 cap.append(gen.capture_line(alg, a, b, r, idx=idx, dl=0))
     C.evaluate(ctx, "capture-deadline-0", cap, rel)
+    # TextDiffConfig::deadline / timeout reach the algorithm; a timeout too large for an Instant means "no deadline"
+    td = []
+    for o, n in text_pairs(ctx, tiered(ctx, 150, 1500), invalid=False):
+        for alg in ALGS:
+            tok = ctx.rng.choice(["lines", "words", "chars"])
+            for via, dl in (("deadline", 0), ("timeout", 0), ("deadline", 1), ("timeout", 10 ** 9), ("timeout_max", None)):
+                td.append((tok, alg, "str", dl, "-", o, n, via))
+                ctx.count("textdiff:deadline-plumbing")
+    C.evaluate(ctx, "textdiff-deadline", textdiff_lines(ctx, td), rel, nontrivial=nontrivial_text)
 
 
 def relevant_C07(comp, kv):
-    return {"no_panic", "no_error", "raw_valid", "finish_last", "post_expiry_work", "ops_loose", "deadline_plumbed"}
+    return {"no_panic", "no_error", "raw_valid", "finish_last", "post_expiry_work", "ops_loose", "deadline_plumbed",
+            "reconstruct_old", "reconstruct_new"}
 
 
 SPECS["C07"] = dict(
@@ -302,7 +316,7 @@ SPECS["C07"] = dict(
 
 
 # ------------------------------------------------------------------ C08
-STACKS = ["none", "mutref", "nofinish", "replace", "replace_norep", "compact", "compact_replace"]
+STACKS = ["none", "mutref", "nofinish", "replace", "replace_norep", "replace_nofinish", "compact", "compact_replace"]
 
 
 def run_C08(ctx):
@@ -347,6 +361,24 @@ def run_C08(ctx):
         ctx.rng.shuffle(ad)
         ad = ad[:20000]
     C.evaluate(ctx, "adapter-fail-every-k", ad, rel)
+    # scripts that contain replace calls, through the forwarding wrappers and adapters, unfailed and failing at every k
+    fw = []
+    for a, b in gen.all_pairs(2, 2):
+        if not a or not b:
+            continue
+        for cut in range(0, min(len(a), len(b)) + 1):
+            sc = []
+            if cut:
+                continue
+            sc = [("R", 0, len(a), 0, len(b)), ("F",)]
+            sc2 = [("D", 0, len(a), 0), ("I", len(a), 0, len(b)), ("F",)]
+            for st in ["mutref", "nofinish", "replace", "replace_norep", "replace_nofinish", "compact", "compact_replace"]:
+                for script in (sc, sc2):
+                    fw.append(gen.adapter_line(a, b, script, st))
+                    for k in range(0, 4):
+                        fw.append(gen.adapter_line(a, b, script, st, fail=k))
+                    ctx.count("adapter:replace-call-forwarding")
+    C.evaluate(ctx, "adapter-forwarding", fw, rel)
 
 
 SPECS["C08"] = dict(
@@ -356,10 +388,11 @@ SPECS["C08"] = dict(
         note='Trusted: Coq 8.16.1 kernel; extraction with ExtrOcamlBasic only; OCaml driver and Rust harness glue; the tie of the hand-written model to /repo is the correspondence check (differential testing on the generated inputs, rebuilt from the working tree every run), not a proof about the Rust source. usize wrap-around is not modelled.',
         technique='Coq proof of the transducer structure + exhaustive fault injection at every hook call index on the real code',
     ),
-    relevant=lambda comp, kv: {"no_panic", "no_error", "abort", "finish_last", "nofinish_no_fin", "no_rep"},
+    relevant=lambda comp, kv: {"no_panic", "no_error", "abort", "finish_last", "nofinish_no_fin", "no_rep",
+                               "forwards_unchanged", "ops_exact", "alternating"},
     run=run_C08,
-    generators="raw component over 3 algorithms x 7 hook stacks (recording hook, &mut, NoFinishHook, Replace over a hook "
-               "with / without its own replace, Compact, Compact+Replace) on every binary pair up to length 3/4 and "
+    generators="raw component over 3 algorithms x 8 hook stacks (recording hook, &mut, NoFinishHook, Replace over a hook "
+               "with / without its own replace, Replace over NoFinishHook, Compact, Compact+Replace) on every binary pair up to length 3/4 and "
                "random pairs up to 25, without deadline and with the virtual clock expiring at probe 0, 1 and 2: the unfailed "
                "run, then the recording hook failing at every call index k; "
                "adapter component: every valid script of binary pairs up to length 2 through the adapter stacks, "
@@ -482,15 +515,18 @@ def run_C12(ctx):
     rel = SPECS["C12"]["relevant"]
     lines = []
     for n in range(0, 4):
-        for ops in gen.alternating_lists(n, tiered(ctx, 4, 5), kinds=("D", "I", "R") if ctx.tier != "quick" else ("D", "R")):
-            lines.append(group_line(ops, n))
-            ctx.count("group:exhaustive-alternating")
+        # op lists as they come from sub-range diffs start at arbitrary, different offsets
+        for start in ((0, 0), (3, 0), (2, 7)):
+            for ops in gen.alternating_lists(n, tiered(ctx, 4, 5), kinds=("D", "I", "R") if ctx.tier != "quick" else ("D", "R"), start=start):
+                lines.append(group_line(ops, n))
+                ctx.count("group:exhaustive-alternating")
     if ctx.tier == "quick" and len(lines) > 60000:
         ctx.rng.shuffle(lines)
         lines = lines[:60000]
     for _ in range(tiered(ctx, 3000, 30000)):
         n = ctx.rng.randrange(0, 6)
-        lines.append(group_line(gen.random_alternating(ctx.rng, n), n, via=ctx.rng.choice(["fn", "capture"])))
+        st = (0, 0) if ctx.rng.random() < 0.3 else (ctx.rng.randrange(0, 9), ctx.rng.randrange(0, 9))
+        lines.append(group_line(gen.random_alternating(ctx.rng, n, start=st), n, via=ctx.rng.choice(["fn", "capture"])))
         ctx.count("group:random-alternating")
     C.evaluate(ctx, "corpus", corpus_lines({"group"}), rel)
     C.evaluate(ctx, "group", lines, rel, nontrivial=lambda comp, kv, impl: "|" in impl or "," in impl)
@@ -513,7 +549,7 @@ SPECS["C12"] = dict(
     ),
     relevant=lambda comp, kv: {"no_panic", "group_spec"},
     run=run_C12,
-    generators="group component: every alternating op list with up to 4/5 runs, starting with either kind, equal-run "
+    generators="group component: every alternating op list with up to 4/5 runs, starting with either kind and at cursor (0,0), (3,0) or (2,7), equal-run "
                "lengths from {1,n-1,n,n+1,2n-1,2n,2n+1,2n+2}, n in 0..3; random alternating lists with up to 11 runs, "
                "n in 0..5, through group_diff_ops and Capture::into_grouped_ops",
 )
@@ -597,19 +633,20 @@ def textdiff_lines(ctx, cases):
     for unicode words / graphemes; cases whose oracle is lossy are kept without
     tokens so that the checker reports them (the model then says so too)."""
     need = {}
-    for tok, alg, mode, dl, nlo, o, n in cases:
+    cases = [c if len(c) == 8 else tuple(c) + (None,) for c in cases]
+    for tok, alg, mode, dl, nlo, o, n, via in cases:
         if tok in ("uwords", "graphemes"):
             need.setdefault((tok, mode), set()).update([o, n])
     orc = {k: oracle_tokens(ctx, k[0], k[1], v) for k, v in need.items()}
     out = []
-    for tok, alg, mode, dl, nlo, o, n in cases:
-        extra = ""
+    for tok, alg, mode, dl, nlo, o, n, via in cases:
+        extra = "" if via is None else " via=%s" % via
         if tok in ("uwords", "graphemes"):
             a, b = orc[(tok, mode)][o], orc[(tok, mode)][n]
             if a is None or b is None or "X" in a or "X" in b:
-                extra = " otoks=LOSSY ntoks=LOSSY"
+                extra += " otoks=LOSSY ntoks=LOSSY"
             else:
-                extra = " otoks=%s ntoks=%s" % (a, b)
+                extra += " otoks=%s ntoks=%s" % (a, b)
         out.append("textdiff tok=%s alg=%s mode=%s dl=%s nlo=%s old=%s new=%s%s" % (
             tok, alg, mode, "-" if dl is None else dl, nlo, gen.hx(o), gen.hx(n), extra))
     return out
@@ -724,6 +761,17 @@ SPECS["C06"] = dict(
 )
 
 
+def huge_distinct_cases(ctx):
+    """65535 distinct lines on the old side, the same on the new side except that the first two lines are
+    two further distinct ones: 65537 distinct tokens, more than a 16-bit numbering can hand out (a wrapped
+    id would alias the first old line), with a 4-item edit script.
+    Checker only (the unary-number model would need hours); Patience and Myers."""
+    old = b"".join(b"l%05d\n" % i for i in range(65535))
+    new = b"X\nY\n" + old[14:]
+    ctx.count("textdiff:65536-distinct-tokens", 2)
+    return ["textdiff tok=lines alg=%s mode=bytes dl=- nlo=- old=%s new=%s" % (a, gen.hx(old), gen.hx(new)) for a in "MP"]
+
+
 # ------------------------------------------------------------------ C04
 def run_C04(ctx):
     rel = SPECS["C04"]["relevant"]
@@ -746,6 +794,7 @@ def run_C04(ctx):
                     cases.append((tok, alg, mode, None, "-", o, n))
     C.evaluate(ctx, "corpus", corpus_lines({"textdiff"}), rel, nontrivial=nontrivial_text)
     C.evaluate(ctx, "textdiff", textdiff_lines(ctx, cases), rel, nontrivial=nontrivial_text)
+    C.evaluate(ctx, "textdiff-65536-distinct", huge_distinct_cases(ctx), rel, x=False, cap=300, nontrivial=nontrivial_text)
 
 
 SPECS["C04"] = dict(
@@ -814,6 +863,7 @@ def run_C14(ctx):
         idl.append("identify w=%s or=%d:%d nr=%d:%d old=%s new=%s" % (w, r[0], r[1], r[2], r[3], gen.fmt_list(a), gen.fmt_list(b)))
         ctx.count("identify:random")
     C.evaluate(ctx, "identify", idl, rel, nontrivial=lambda comp, kv, impl: "oids=-" not in impl)
+    C.evaluate(ctx, "textdiff-65536-distinct", huge_distinct_cases(ctx), rel, x=False, cap=300, nontrivial=nontrivial_text)
 
 
 SPECS["C14"] = dict(
@@ -1160,6 +1210,10 @@ def run_C18(ctx):
                 gen.hx(word.encode()), "|".join((gen.hx(c.encode()) if c else "e") for c in cands) or "-", n, cb))
             ctx.count("close:cases")
     lines.append("close word=%s cands=%s n=3 cutoff=%d" % (gen.hx(b"appel"), "|".join(gen.hx(x) for x in [b"ape", b"apple", b"peach", b"puppy"]), f32_bits(0.6)))
+    # the witness of known finding F9 (two distinct ratios below 2^-9 with the same u32 key)
+    c1 = b"a" + b"b" * 131071
+    c2 = b"aa" + b"b" * 131071
+    lines.append("close word=61 cands=%s|%s n=2 cutoff=0" % (gen.hx(c1), gen.hx(c2)))
     C.evaluate(ctx, "close", lines, rel, nontrivial=lambda comp, kv, impl: "res=-" not in impl)
 
 
@@ -1170,7 +1224,7 @@ SPECS["C18"] = dict(
         note='Trusted: Coq 8.16.1 kernel; extraction with ExtrOcamlBasic only; OCaml driver and Rust harness glue; the tie of the hand-written model to /repo is the correspondence check (differential testing on the generated inputs, rebuilt from the working tree every run), not a proof about the Rust source. usize wrap-around is not modelled.',
         technique='verified-optimum checker + exhaustive-ranking oracle on implementation output; Coq proof over an abstract monotone rounding',
     ),
-    relevant=lambda comp, kv: {"no_panic", "close_matches_spec", "close_ratio_is_2L"},
+    relevant=lambda comp, kv: {"no_panic", "close_matches_spec", "close_matches_spec@keytie", "close_ratio_is_2L"},
     run=run_C18,
     generators="close component (get_close_matches): words and candidate lists over a 3-letter alphabet (all words up to "
                "length 3, duplicates, empty strings), mixed-width characters (1/2/3/4-byte) where byte length differs "
